@@ -315,7 +315,8 @@ void mmd_export_link_html(DString * out, const char * source, token * text, link
 	print_const(">");
 
 	// If we're printing contents of bracket as text, then ensure we include it all
-	if (text && text->child && text->child->len > 1) {
+	if (text && text->child && text->child->len > 1 && text->child->next &&
+			(text->child->next->start == text->child->start + text->child->len)) {
 		text->child->next->start--;
 		text->child->next->len++;
 	}
